@@ -49,8 +49,12 @@ func (p Precompile) DepositOrWithdraw(
 		return nil, err
 	}
 
+	// a failure below is reported to the caller as `false` without reverting the EVM call,
+	// so all state changes are made in a cache context that is only written on success.
+	cachedCtx, writeFunc := ctx.CacheContext()
+
 	// call assets keeper to perform the deposit or withdraw action
-	err = p.assetsKeeper.PerformDepositOrWithdraw(ctx, depositWithdrawParams)
+	err = p.assetsKeeper.PerformDepositOrWithdraw(cachedCtx, depositWithdrawParams)
 	if err != nil {
 		return nil, err
 	}
@@ -64,7 +68,7 @@ func (p Precompile) DepositOrWithdraw(
 		}
 		_, assetID := assetstypes.GetStakerIDAndAssetID(depositWithdrawParams.ClientChainLzID,
 			depositWithdrawParams.StakerAddress, depositWithdrawParams.AssetsAddress)
-		err = p.assetsKeeper.UpdateNSTValidatorListForStaker(ctx, assetID,
+		err = p.assetsKeeper.UpdateNSTValidatorListForStaker(cachedCtx, assetID,
 			hexutil.Encode(depositWithdrawParams.StakerAddress),
 			hexutil.Encode(depositWithdrawParams.ValidatorPubkey),
 			opAmount)
@@ -75,10 +79,11 @@ func (p Precompile) DepositOrWithdraw(
 
 	// get the latest asset state of staker to return.
 	stakerID, assetID := assetstypes.GetStakerIDAndAssetID(depositWithdrawParams.ClientChainLzID, depositWithdrawParams.StakerAddress, depositWithdrawParams.AssetsAddress)
-	info, err := p.assetsKeeper.GetStakerSpecifiedAssetInfo(ctx, stakerID, assetID)
+	info, err := p.assetsKeeper.GetStakerSpecifiedAssetInfo(cachedCtx, stakerID, assetID)
 	if err != nil {
 		return nil, err
 	}
+	writeFunc()
 	return method.Outputs.Pack(true, info.TotalDepositAmount.BigInt())
 }
 
